@@ -31,7 +31,7 @@ func max(a, b int) int {
 }
 
 func Render(w io.Writer, tm *t.Map, src []t.Token, comments []string) (err error) {
-	if len(src) == 0 {
+	if len(src) == 0 && len(comments) == 0 {
 		return nil
 	}
 
@@ -43,7 +43,13 @@ func Render(w io.Writer, tm *t.Map, src []t.Token, comments []string) (err error
 	inStruct := false
 	varNameLength := uint32(0)
 
-	prevLine := src[0].Line - 1
+	// prevLine's initial value means that no blank line is written before the
+	// first line, whether that holds tokens or (possibly for a src-less file of
+	// nothing but comments) a comment.
+	prevLine := uint32(len(comments))
+	if len(src) > 0 {
+		prevLine = src[0].Line - 1
+	}
 	prevLineHanging := false
 
 	for len(src) > 0 {
